@@ -26,7 +26,10 @@ CONSTANTS Scenarios,  \* set of [flags, args, outmode, iofails]:
                       \*   outmode "stdout" | "file" | "perfile"
                       \*   iofails BOOLEAN: some write fails
           Silent, Panics, Hangs,  \* sets of <<fault, pos>> (deviations of the tree as it is)
-          Either                  \* faults on which the statement allows success as well as a clean failure
+          Either,                 \* faults on which the statement allows success as well as a clean failure
+          RefCollapse             \* deviation (BOOLEAN): a definition that is a bare $ref is considered equal to an
+                                  \* earlier file's same-named bare-$ref definition (cmputil.Opts ignores Ref), so
+                                  \* it is never resolved: its fault goes unnoticed -- a HISTORY-dependent outcome
 
 VARIABLES sc, phase, i, exit, stdout, stderr, written, cause
 vars == <<sc, phase, i, exit, stdout, stderr, written, cause>>
@@ -53,6 +56,8 @@ BuildMaps  == /\ phase = "buildmaps"
               /\ IF Flags = "badmapping" THEN Abort("flag")
                  ELSE phase' = "dofile" /\ UNCHANGED <<sc, i, exit, stdout, stderr, written, cause>>
 
+RefFaults == {"missingdef", "missingfile", "refhash", "refhashslash", "refdefsempty", "refother",
+              "refdefsbare", "refdefinitionsbare", "refuppercase"}
 Fails(a) == a.status = "bad" /\ <<a.fault, a.pos>> \notin Silent
 DoFile == /\ phase = "dofile" /\ i <= NArgs
           /\ LET a == Args[i] IN
@@ -61,6 +66,9 @@ DoFile == /\ phase = "dofile" /\ i <= NArgs
                   /\ UNCHANGED <<sc, i, stdout, written>>
              ELSE IF a.status = "bad" /\ <<a.fault, a.pos>> \in Hangs THEN
                   phase' = "hung" /\ UNCHANGED <<sc, i, exit, stdout, stderr, written, cause>>
+             ELSE IF /\ RefCollapse /\ a.status = "bad" /\ a.pos = "definition" /\ a.fault \in RefFaults
+                     /\ \E j \in 1..(i - 1) : Args[j].pos = "definition" /\ Args[j].fault \in RefFaults THEN
+                  i' = i + 1 /\ UNCHANGED <<sc, phase, exit, stdout, stderr, written, cause>>
              ELSE IF a.status = "bad" /\ a.fault \in Either THEN
                   \/ Abort("generate")
                   \/ i' = i + 1 /\ UNCHANGED <<sc, phase, exit, stdout, stderr, written, cause>>
